@@ -64,6 +64,44 @@ pub fn c12(tier: &str, seed: u64) {
           Ok(Ok(r)) => runs.push(r),
         }
       }
+      // the blinding scalar is an OBJECT the client holds: one `CurveScalar` used for several
+      // unblindings (the input point, the reply, a retry, replies under another tag or from another
+      // server) gives what a fresh copy of the same scalar gives every time
+      {
+        let (bp, cs0) = Client::blind(&input);
+        let r = Scalar::from(cs0);
+        let held = CurveScalar::from(r);
+        let mut pts: Vec<(String, Point)> = vec![("the blinded request itself".into(), Point::from(&bp.as_bytes()[..]))];
+        if let Ok(ev) = server.eval(&bp, md, false) {
+          pts.push((format!("reply under tag {}", md), Point::from(&ev.output.as_bytes()[..])));
+          pts.push((format!("reply under tag {} again (retry)", md), Point::from(&ev.output.as_bytes()[..])));
+        }
+        if let Some(&md2) = tags.iter().find(|&&x| x != md) {
+          if let Ok(ev) = server.eval(&bp, md2, true) {
+            pts.push((format!("reply under tag {}", md2), Point::from(&ev.output.as_bytes()[..])));
+          }
+        }
+        if let Some((ps, ptags)) = &prev {
+          if let Ok(ev) = ps.eval(&bp, ptags[0], false) {
+            pts.push(("reply of another server".into(), Point::from(&ev.output.as_bytes()[..])));
+          }
+        }
+        pts.push(("the blinded request again".into(), Point::from(&bp.as_bytes()[..])));
+        for (k, (what, pt)) in pts.iter().enumerate() {
+          let a = std::panic::catch_unwind(std::panic::AssertUnwindSafe(|| Client::unblind(pt, &held).as_bytes().to_vec()));
+          let b = Client::unblind(pt, &CurveScalar::from(r)).as_bytes().to_vec();
+          match a {
+            Err(_) => fail("unblind_panicked", &[("input", hex(&input)), ("use", k.to_string()), ("of", what.clone())]),
+            Ok(a) if a != b => fail(
+              "unblind_depends_on_earlier_unblindings",
+              &[("input", hex(&input)), ("r", sch(&r)), ("use_number", (k + 1).to_string()), ("point_unblinded", format!("{}: {}", what, hex(pt.as_bytes()))), ("with_held_scalar_object", hex(&a)), ("with_fresh_copy_of_the_scalar", hex(&b))],
+            ),
+            _ => {}
+          }
+          case(true);
+        }
+        stat("oracle.C12.held_blinding_scalar");
+      }
       if runs.len() < 3 {
         continue;
       }
